@@ -78,6 +78,30 @@ def expectedMarkups (boundary : Bytes) (parts : List Part) : List Markup :=
 def stepM (pat : Bytes) (m : Nat) (b : UInt8) : Nat :=
   if pat[m]? = some b then m + 1 else if b = CR then 1 else 0
 
+/-- result of scanning some bytes for the delimiter -/
+inductive ScanRes
+  | found (j : Nat)     -- the delimiter was completed by the `j`-th byte read (1-based)
+  | more (m : Nat)      -- not completed; `m` delimiter bytes are matched at the end
+  deriving Repr, DecidableEq
+
+/-- the data phase of the reference machine in isolation: run `stepM` from `m` over the bytes
+until the pattern is complete -/
+def scan (pat : Bytes) : Nat → Bytes → ScanRes
+  | m, [] => .more m
+  | m, b :: bs =>
+    if stepM pat m b = pat.length then .found 1
+    else match scan pat (stepM pat m b) bs with
+      | .found j => .found (j + 1)
+      | .more m' => .more m'
+
+/-- `self.trest` when `m` delimiter bytes are matched -/
+def trestOf (tok : Bytes) (m : Nat) : Option Bytes := if m = 0 then none else some (tok.drop m)
+
+/-- what `_eat_data(chunk, base)` has to answer for a scan result of `chunk[base:]` -/
+def renderScan (tok : Bytes) (base : Nat) : ScanRes → EatOut
+  | .found j => ⟨some (((base + j : Nat) : Int) - tok.length), none⟩
+  | .more m => ⟨none, trestOf tok m⟩
+
 inductive Phase
   | start (m : Nat)        -- before the first delimiter (a body starting with `--` counts as m = 2)
   | data (m : Nat)         -- in a data section, `m` delimiter bytes matched
